@@ -229,6 +229,10 @@ pub fn program(chain: &[K], inner: &str, sibling: Option<(usize, bool, &str)>) -
     format!("{}{}print(\"end\")\n", PRELUDE, level(chain, 0, inner, sibling))
 }
 
+fn v_push(v: &mut Vec<(&'static str, String)>, src: String) {
+    v.push(("what for binds", src));
+}
+
 fn mutating_bodies() -> Vec<(&'static str, String)> {
     let mut v: Vec<(&'static str, String)> = vec![];
     let lists = [
@@ -255,6 +259,42 @@ fn mutating_bodies() -> Vec<(&'static str, String)> {
     ];
     for (n, s) in lists {
         v.push((n, s.to_string()));
+    }
+    // what `for` binds for every kind of iterable: the pair [key, value] with the element / byte /
+    // property at that key, in order
+    for src in ["[]", "[7]", "[7, [8], \"s\"]", "\"\"", "\"abc\"", "\"é\"", "\"a€b\"", "\"😀!\"", "\"\\x7f\\n\"", "{}", "{\"b\": 1, \"a\": [2]}", "{\"é\": 1, \"z\": 2, \"\": 3, \"Z\": 4}", "0 .. 3", "-2 .. 0"] {
+        let is_str = src.starts_with('"');
+        let is_obj = src.starts_with('{');
+        for target in ["p", "[k, v]", "[_, v]", "[k, _]"] {
+            let mut b = format!("s := {}\nn := 0\nacc := \"\"\nfor {} in s {{\nn += 1\n", src, target);
+            let (k, val) = match target {
+                "p" => ("p[0]", "p[1]"),
+                "[k, v]" => ("k", "v"),
+                "[_, v]" => ("", "v"),
+                _ => ("k", ""),
+            };
+            if !k.is_empty() {
+                b.push_str(&format!("print({})\n", k));
+            }
+            if !val.is_empty() {
+                if is_str {
+                    b.push_str(&format!("print({v}->len())\nacc += {v}\n", v = val));
+                } else {
+                    b.push_str(&format!("print({})\n", val));
+                }
+            }
+            if !k.is_empty() && !val.is_empty() && !is_obj {
+                b.push_str(&format!("print({} == s[{}])\n", val, k));
+            }
+            if !k.is_empty() && !val.is_empty() && is_obj {
+                b.push_str(&format!("print({} == s[{}])\n", val, k));
+            }
+            b.push_str("}\nprint(n)\n");
+            if is_str && !val.is_empty() {
+                b.push_str("print(acc == s)\nprint(acc)\n");
+            }
+            v_push(&mut v, b);
+        }
     }
     // while: the condition is re-evaluated before every iteration, also after continue
     for k in 0..=4 {
